@@ -134,28 +134,31 @@ Qed.
 
 (* ---------------------------------------------------------------- permissions, gates, versions *)
 
-(* P_bits_table (partial): on every option list in which --modify is absent, or comes first and the
-   granular options after it only restrict further, the permission word qpdf writes is exactly the
-   one the manual's table gives; all revisions. Finite and exhaustive: 81 + 4 * (2916 + 2880) lists,
-   enumerated in the statement. The full statement (every list of options) is refuted below. *)
-Lemma P_bits_table_partial_lemma :
+(* P_bits_table: for every enumerated option list the permission word qpdf writes is exactly the one the
+   manual gives (encryption.rst table applied to the options in effect: --modify expanded as cli.rst says, a later
+   occurrence of an option standing). Finite and exhaustive, the lists are enumerated in the statement: 40-bit:
+   all 81 combinations of the four y/n options; each of R = 3, 4, 5, 6: 32 284 lists = every combination of the
+   seven options without --modify (2916), with each --modify value before them (14 580) and after them (14 580),
+   all 80 ordered (--modify, granular option) pairs, and 128 lists giving an option twice with different values.
+   (Before fix 8ca3265e this failed on 20 of the 80 pairs: --modify re-set the granular permissions.) *)
+Lemma P_bits_table_lemma :
   forallb (P_agrees 2) opts_R2 = true /\
-  forallb (fun R => forallb (P_agrees R) opts_R3_granular && forallb (P_agrees R) opts_R3_modify_first) [3; 4; 5; 6] = true.
+  forallb (fun R => forallb (P_agrees R) opts_R3_all) [3; 4; 5; 6] = true.
 Proof. split; vm_compute; reflexivity. Qed.
 
-(* P_bits_table refuted: `--assemble=n --modify=annotate` under R = 6: qpdf writes 0xFFFFFFF4 (-12, document
-   assembly allowed), the manual's table gives 0xFFFFFBF4 (-1036). Exactly 20 of the 80 ordered pairs of
-   --modify with one granular option disagree, for every R >= 3. *)
-Lemma P_bits_table_refuted_lemma :
-  (exists R opts, job_P (keylen_of_R R) R opts <> manual_P R opts /\
-                  opts = [OAssemble false; OModify MdAnnotate] /\ R = 6 /\
-                  job_P 256 6 opts = 4294967284 /\ manual_P 6 opts = 4294966260) /\
-  forallb (fun R => Nat.eqb (length (filter (fun o => negb (P_agrees R o)) opts_R3_pairs)) 20) [3; 4; 5; 6] = true.
-Proof.
-  split.
-  - exists 6, [OAssemble false; OModify MdAnnotate]. repeat split; try reflexivity. vm_compute. discriminate.
-  - vm_compute. reflexivity.
-Qed.
+(* the same against the most literal reading of the table alone (every argument clears its bits, "=y" does
+   nothing): agreement whenever no option re-enables what an earlier argument disabled; among the 80 ordered pairs
+   exactly the 10 of the form [--modify=x; granular=y] with the granular permission disabled by x differ,
+   where qpdf follows "Enable/disable" of cli.rst and grants the permission *)
+Definition c05_is_enable (o : enc_opt) : bool :=
+  match o with OAssemble true | OAnnotate true | OForm true | OModifyOther true => true | _ => false end.
+Lemma P_bits_table_union_reading_lemma :
+  forallb (fun R => forallb (P_agrees_union R) opts_R3_granular
+                    && forallb (fun o => P_agrees_union R o
+                                         || match o with [OModify _; g] => c05_is_enable g | _ => false end) opts_R3_pairs
+                    && Nat.eqb (length (filter (fun o => negb (P_agrees_union R o)) opts_R3_pairs)) 10)
+          [3; 4; 5; 6] = true.
+Proof. vm_compute. reflexivity. Qed.
 
 (* gates: RC4-based schemes are refused without --allow-weak-crypto, and a non-empty user password with an
    empty owner password under a 256-bit key is refused without --allow-insecure; nothing else is refused *)
@@ -185,21 +188,11 @@ Proof. split; [reflexivity|]. unfold scheme_V4. cbn. repeat split; auto 10. Qed.
 (* ---------------------------------------------------------------- which leaves are encrypted *)
 From QV Require Import Crypto.EncWriter.
 
-(* leaves_encrypted (partial): for every class of enc_leaf except strings in the dictionary of the cleartext
-   metadata stream, the writer encrypts exactly what the standard requires to be encrypted *)
-Lemma leaves_encrypted_partial_lemma : forall encrypt_metadata l,
-  l <> LfMetaDictString \/ encrypt_metadata = true ->
+(* leaves_encrypted: for every class of leaf and both values of EncryptMetadata the writer encrypts exactly what
+   the standard requires to be encrypted: every string and stream except the encryption dictionary, the trailer,
+   signature /Contents, cross-reference streams, the DATA of the cleartext metadata stream, and strings inside
+   object streams (protected by the enclosing stream). (Before fix 5a982a7f the strings of the cleartext metadata
+   stream's dictionary were written in the clear.) *)
+Lemma leaves_encrypted_lemma : forall encrypt_metadata l,
   writer_encrypts encrypt_metadata l = iso_requires_encrypted encrypt_metadata l.
-Proof.
-  intros em l [H|H].
-  - destruct l, em; try reflexivity; exfalso; apply H; reflexivity.
-  - subst em. destruct l; reflexivity.
-Qed.
-
-(* leaves_encrypted refuted at full strength: with --cleartext-metadata a string in the DICTIONARY of the
-   catalog's metadata stream is written in the clear although only the stream's data is exempt
-   (known finding C05-F3; the check observes it on generated files) *)
-Lemma leaves_encrypted_refuted_lemma :
-  writer_encrypts false LfMetaDictString = false /\ iso_requires_encrypted false LfMetaDictString = true /\
-  forallb (fun l => Bool.eqb (writer_encrypts true l) (iso_requires_encrypted true l)) enc_all_leaves = true.
-Proof. repeat split. Qed.
+Proof. intros em l. destruct l, em; reflexivity. Qed.
